@@ -220,6 +220,11 @@ def execute(prop, run):
             if rec['outcome'] == 'died':
                 # need resolved args: re-resolve is impossible; skip ref
                 continue
+            if tags.get('rng_dependent') or any(
+                    ex.events_by_id[d].get('tags', {}).get('rng_dependent')
+                    for d in _closure(ex, rec)):
+                # the result is *meant* to depend on the RNG position
+                continue
             pr = run_pristine(
                 ex, rec, splitmix64(seed, 7777, ev['id']) % (2 ** 32))
             ex.pristine[ev['id']] = pr
